@@ -582,7 +582,7 @@ func TestHistories(t *testing.T) {
 			out = append(out, histCase{Ops: ops})
 		}
 		return out
-	}}, vt.N(700, 5000))
+	}}, vt.N(700, 20000))
 }
 
 // Deterministic scenarios from the statement.
